@@ -267,6 +267,7 @@ type c01StaticReply struct {
 	skip   bool
 	frag   bool
 	kinds  string
+	why    string
 	den    string
 	rt     string
 	static string
@@ -281,7 +282,12 @@ func c01ParseStatic(reply string) c01StaticReply {
 	if len(f) != 5 || f[0] != "static" {
 		return c01StaticReply{bad: reply}
 	}
-	return c01StaticReply{frag: strings.HasPrefix(f[1], "frag=1"), kinds: strings.TrimPrefix(f[1], "frag=1"), den: strings.TrimPrefix(f[2], "den="),
+	why := ""
+	if i := strings.Index(f[1], "|"); i >= 0 {
+		why = f[1][i+1:]
+		f[1] = f[1][:i]
+	}
+	return c01StaticReply{frag: strings.HasPrefix(f[1], "frag=1"), kinds: strings.TrimPrefix(f[1], "frag=1"), why: why, den: strings.TrimPrefix(f[2], "den="),
 		rt: strings.TrimPrefix(f[3], "rt="), static: f[4]}
 }
 
@@ -339,6 +345,9 @@ func c01StaticCheck(c *Ctx, cases []c01StaticCase, stream string, reported map[s
 			}
 		} else {
 			r.hist("static:" + stream + ":outside-proved-fragment (type check of the model)")
+			if rep.why != "" {
+				r.hist("static:" + stream + ":outside because: " + rep.why)
+			}
 			if strings.Contains(rep.kinds, "X") {
 				r.hist("static:" + stream + ":run-time sized fragment except the index sets (empty / null source, or recorded != source)")
 			}
